@@ -316,6 +316,15 @@ where
             return Err(anyhow!("invalid signature in trampoline invoice"));
         }
 
+        // The invoice must commit to the same payment hash as the htlc itself.
+        // Otherwise the preimage obtained by paying the invoice cannot settle
+        // this htlc.
+        if AsRef::<[u8]>::as_ref(invoice.payment_hash()) != req.htlc.payment_hash.as_slice() {
+            return Err(anyhow!(
+                "trampoline invoice payment hash does not match htlc payment hash"
+            ));
+        }
+
         // Note that this may panic if the signature is not checked.
         let payee = invoice.get_payee_pub_key();
 
